@@ -1,0 +1,224 @@
+//go:build verif
+
+package tls
+
+import (
+	"fmt"
+	"hash"
+	"net"
+	"sync/atomic"
+
+	"github.com/zmap/zcrypto/x509"
+)
+
+// Verification hooks for the key-exchange parsers and the handshake-phase
+// record / handshake reader (add-only, build tag verif).
+
+// VerifKX reports how far a key-exchange processor got and what it parsed.
+type VerifKX struct {
+	Panic  string // recovered panic value, "" if none
+	Err    string // error text, "" if none
+	Struct bool   // the error is errServerKeyExchange / errClientKeyExchange
+	// Stage: ECDHE ServerKeyExchange: 0 nothing stored, 1 server share stored,
+	// 2 shared secret computed, 3 signature bytes isolated.
+	// DHE ServerKeyExchange: number of p, g, Ys stored (0..3), 4 signature isolated.
+	Stage   int
+	Curve   uint16
+	Public  []byte
+	SigRaw  []byte
+	P, G, Y []byte
+	PMSLen  int
+}
+
+func verifKA(kind string, version uint16) keyAgreement {
+	switch kind {
+	case "rsa":
+		return rsaKA(version)
+	case "ecdhe-rsa":
+		return ecdheRSAKA(version)
+	case "ecdhe-ecdsa":
+		return ecdheECDSAKA(version)
+	case "dhe-rsa":
+		return dheRSAKA(version)
+	}
+	panic("verifKA: unknown kind " + kind)
+}
+
+func verifIsStruct(err error) bool {
+	return err == errServerKeyExchange || err == errClientKeyExchange
+}
+
+// VerifProcessSKX runs the client-side processServerKeyExchange of the given
+// key agreement on the message body key.
+func VerifProcessSKX(kind string, version uint16, cert *x509.Certificate, sigAlgs []SignatureScheme,
+	clientRandom, serverRandom, key []byte, config *Config) (r VerifKX) {
+	ka := verifKA(kind, version)
+	defer func() {
+		if p := recover(); p != nil {
+			r.Panic = fmt.Sprint(p)
+		}
+		switch k := ka.(type) {
+		case *ecdheKeyAgreement:
+			if k.serverParams != nil {
+				r.Stage = 1
+				r.Curve = uint16(k.serverParams.CurveID())
+				if xp, ok := k.serverParams.(*x25519Parameters); ok {
+					r.Public = append([]byte{}, xp.publicKey...)
+				}
+				if k.ckx != nil {
+					r.Stage = 2
+					if a, ok := k.auth.(*signedKeyAgreement); ok && a.raw != nil {
+						r.Stage = 3
+						r.SigRaw = append([]byte{}, a.raw...)
+					}
+				}
+			}
+		case *dheKeyAgreement:
+			if k.p != nil {
+				r.Stage, r.P = 1, k.p.Bytes()
+			}
+			if k.g != nil {
+				r.Stage, r.G = 2, k.g.Bytes()
+			}
+			if k.yTheirs != nil {
+				r.Stage, r.Y = 3, k.yTheirs.Bytes()
+			}
+			if a, ok := k.auth.(*signedKeyAgreement); ok && a.raw != nil {
+				r.Stage = 4
+				r.SigRaw = append([]byte{}, a.raw...)
+			}
+		}
+	}()
+	ch := &clientHelloMsg{random: clientRandom, supportedSignatureAlgorithms: sigAlgs}
+	sh := &serverHelloMsg{random: serverRandom}
+	skx := &serverKeyExchangeMsg{key: key}
+	err := ka.processServerKeyExchange(config, ch, sh, cert, skx)
+	if err != nil {
+		r.Err = err.Error()
+		r.Struct = verifIsStruct(err)
+	}
+	return
+}
+
+// VerifServerKA is a server-side key agreement after generateServerKeyExchange.
+type VerifServerKA struct {
+	ka     keyAgreement
+	cert   *Certificate
+	config *Config
+	vers   uint16
+	// SKX is the body of the generated ServerKeyExchange (nil for RSA).
+	SKX []byte
+}
+
+// VerifNewServerKA runs generateServerKeyExchange for a synthetic ClientHello
+// offering the given curves.
+func VerifNewServerKA(kind string, version uint16, cert *Certificate, curves []CurveID, config *Config) (*VerifServerKA, error) {
+	ka := verifKA(kind, version)
+	ch := &clientHelloMsg{random: make([]byte, 32), supportedCurves: curves, supportedPoints: []uint8{pointFormatUncompressed},
+		supportedSignatureAlgorithms: supportedSignatureAlgorithms}
+	sh := &serverHelloMsg{random: make([]byte, 32)}
+	skx, err := ka.generateServerKeyExchange(config, cert, ch, sh)
+	if err != nil {
+		return nil, err
+	}
+	v := &VerifServerKA{ka: ka, cert: cert, config: config, vers: version}
+	if skx != nil {
+		v.SKX = skx.key
+	}
+	return v, nil
+}
+
+// ProcessCKX runs processClientKeyExchange on the message body ciphertext.
+func (v *VerifServerKA) ProcessCKX(ciphertext []byte) (r VerifKX) {
+	defer func() {
+		if p := recover(); p != nil {
+			r.Panic = fmt.Sprint(p)
+		}
+	}()
+	raw := append([]byte{typeClientKeyExchange, byte(len(ciphertext) >> 16), byte(len(ciphertext) >> 8), byte(len(ciphertext))}, ciphertext...)
+	ckx := &clientKeyExchangeMsg{raw: raw, ciphertext: ciphertext}
+	pms, err := v.ka.processClientKeyExchange(v.config, v.cert, ckx, v.vers)
+	if err != nil {
+		r.Err = err.Error()
+		r.Struct = verifIsStruct(err)
+		return
+	}
+	r.PMSLen = len(pms)
+	// the log is built right after a successful processClientKeyExchange
+	_ = ckx.MakeLog(v.ka)
+	return
+}
+
+// VerifHandshakeConn returns a connection in the middle of a handshake (or in
+// the data phase when complete is set): the read half uses the given
+// primitives, next* are the ones a change_cipher_spec would switch to.
+func VerifHandshakeConn(conn net.Conn, isClient bool, vers uint16, haveVers bool, inCipher interface{}, inMac hash.Hash,
+	nextCipher interface{}, nextMac hash.Hash, complete bool, config *Config) *Conn {
+	if config == nil {
+		config = &Config{}
+	}
+	c := &Conn{conn: conn, isClient: isClient, config: config}
+	c.vers = vers
+	c.haveVers = haveVers
+	c.in.version, c.in.cipher, c.in.mac = vers, inCipher, inMac
+	c.in.nextCipher, c.in.nextMac = nextCipher, nextMac
+	c.out.version = vers
+	c.handshakeLog = new(ServerHandshake)
+	if complete {
+		c.handshakes = 1
+		atomic.StoreUint32(&c.handshakeStatus, 1)
+	}
+	return c
+}
+
+// VerifReadHandshake calls readHandshake with c.in locked, as the handshake does.
+func VerifReadHandshake(c *Conn) (typ int, raw []byte, err error, panicked string) {
+	defer func() {
+		if p := recover(); p != nil {
+			typ, raw, err, panicked = -1, nil, nil, fmt.Sprint(p)
+		}
+	}()
+	c.in.Lock()
+	defer c.in.Unlock()
+	m, e := c.readHandshake()
+	if e != nil {
+		return -1, nil, e, ""
+	}
+	hm, ok := m.(handshakeMessage)
+	if !ok {
+		return -1, nil, fmt.Errorf("verif: not a handshakeMessage: %T", m), ""
+	}
+	raw = hm.marshal()
+	if len(raw) > 0 {
+		typ = int(raw[0])
+	}
+	return typ, append([]byte{}, raw...), nil, ""
+}
+
+// VerifReadChangeCipherSpec calls readChangeCipherSpec with c.in locked.
+func VerifReadChangeCipherSpec(c *Conn) (err error, panicked string) {
+	defer func() {
+		if p := recover(); p != nil {
+			err, panicked = nil, fmt.Sprint(p)
+		}
+	}()
+	c.in.Lock()
+	defer c.in.Unlock()
+	return c.readChangeCipherSpec(), ""
+}
+
+// VerifReaderState returns len(c.hand), c.retryCount, the read sequence number
+// and whether a read cipher is installed.
+func VerifReaderState(c *Conn) (handLen, retryCount int, seq [8]byte, hasCipher bool) {
+	c.in.Lock()
+	defer c.in.Unlock()
+	return c.hand.Len(), c.retryCount, c.in.seq, c.in.cipher != nil
+}
+
+// VerifReaderLimits returns maxHandshake and maxUselessRecords.
+func VerifReaderLimits() (int, int) { return maxHandshake, maxUselessRecords }
+
+// VerifSupportedSignatureAlgorithms returns the list a client offers by default.
+func VerifSupportedSignatureAlgorithms() []SignatureScheme {
+	return append([]SignatureScheme{}, supportedSignatureAlgorithms...)
+}
